@@ -36,7 +36,8 @@ open MeasureTheory Set Metric
 local notation "μL" => MeasureTheory.MeasureSpace.volume
 
 /-- the real instance of the transcendental operations the model is generic in -/
-noncomputable instance : Transc ℝ := ⟨Real.sqrt, Real.pi⟩
+noncomputable instance (priority := high) instTranscRealC10 : Transc ℝ :=
+  ⟨Real.sqrt, Real.cos, Real.sin, Real.arccos, fun x => x ^ ((1 : ℝ) / 3), Real.pi⟩
 
 /-! ## 1. closed forms = Lebesgue measure -/
 
@@ -171,7 +172,7 @@ theorem tri_volume (o d1 d2 : Fin 2 → ℝ) :
 
 /-! ### the sets the primitives denote (`mem`) -/
 
-theorem get_single (v : String) (l : List ℝ) : Env.get [(v, l)] v = some l := by
+theorem env_get_single (v : String) (l : List ℝ) : Env.get [(v, l)] v = some l := by
   simp [Env.get, List.lookup]
 
 /-- the set `mem` assigns to a `Circle` (parameters independent of the point) is the closed Euclidean disc -/
@@ -179,7 +180,7 @@ theorem circle_denotation (v : String) (c r : PFun ℝ) (ρ : Env ℝ) (cx cy rr
     (hc : ∀ q, c.f ([(v, q)] ++ ρ) = [cx, cy]) (hr : ∀ q, r.f ([(v, q)] ++ ρ) = [rr]) :
     {p : EuclideanSpace ℝ (Fin 2) | mem (.circle v c r) [(v, [p 0, p 1])] ρ} = closedBall !₂[cx, cy] rr := by
   ext p
-  simp only [mem, get_single, hc, hr, mem_ofPred_eq, mem_closedBall, EuclideanSpace.dist_eq, Fin.sum_univ_two,
+  simp only [mem, env_get_single, hc, hr, mem_ofPred_eq, mem_closedBall, EuclideanSpace.dist_eq, Fin.sum_univ_two,
     Real.sqrt_le_iff]
   constructor
   · rintro ⟨x, y, cx', cy', rr', h1, h2, h3, h4, h5⟩
@@ -197,7 +198,7 @@ theorem interval_denotation (v : String) (lb ub : PFun ℝ) (ρ : Env ℝ) (l u 
     (hl : ∀ q, lb.f ([(v, q)] ++ ρ) = [l]) (hu : ∀ q, ub.f ([(v, q)] ++ ρ) = [u]) :
     {x : ℝ | mem (.interval v lb ub) [(v, [x])] ρ} = Icc l u := by
   ext x
-  simp only [mem, get_single, hl, hu, mem_ofPred_eq, mem_Icc]
+  simp only [mem, env_get_single, hl, hu, mem_ofPred_eq, mem_Icc]
   constructor
   · rintro ⟨x', l', u', h1, h2, h3, h4, h5⟩
     simp only [Option.some.injEq, List.cons.injEq, and_true] at h1 h2 h3
@@ -211,7 +212,7 @@ theorem par_denotation (v : String) (o c1 c2 : PFun ℝ) (ρ : Env ℝ) (ox oy a
     {p : Fin 2 → ℝ | mem (.par v o c1 c2) [(v, [p 0, p 1])] ρ}
       = parSet ![ox, oy] ![ax - ox, ay - oy] ![bx - ox, cy - oy] := by
   ext p
-  simp only [mem, get_single, ho, h1, h2, mem_ofPred_eq, parSet]
+  simp only [mem, env_get_single, ho, h1, h2, mem_ofPred_eq, parSet]
   constructor
   · rintro ⟨x, y, ox', oy', ax', ay', bx', cy', s, t, e1, e2, e3, e4, hs0, hs1, ht0, ht1, hx, hy⟩
     simp only [Option.some.injEq, List.cons.injEq, and_true] at e1 e2 e3 e4
@@ -230,7 +231,7 @@ theorem tri_denotation (v : String) (o c1 c2 : PFun ℝ) (ρ : Env ℝ) (ox oy a
     {p : Fin 2 → ℝ | mem (.tri v o c1 c2) [(v, [p 0, p 1])] ρ}
       = triSet ![ox, oy] ![ax - ox, ay - oy] ![bx - ox, cy - oy] := by
   ext p
-  simp only [mem, get_single, ho, h1, h2, mem_ofPred_eq, triSet]
+  simp only [mem, env_get_single, ho, h1, h2, mem_ofPred_eq, triSet]
   constructor
   · rintro ⟨x, y, ox', oy', ax', ay', bx', cy', s, t, e1, e2, e3, e4, hs0, ht0, hst, hx, hy⟩
     simp only [Option.some.injEq, List.cons.injEq, and_true] at e1 e2 e3 e4
@@ -247,7 +248,7 @@ theorem sphere_denotation (v : String) (c r : PFun ℝ) (ρ : Env ℝ) (cx cy cz
     (hc : ∀ q, c.f ([(v, q)] ++ ρ) = [cx, cy, cz]) (hr : ∀ q, r.f ([(v, q)] ++ ρ) = [rr]) :
     {p : EuclideanSpace ℝ (Fin 3) | mem (.sphere v c r) [(v, [p 0, p 1, p 2])] ρ} = closedBall !₂[cx, cy, cz] rr := by
   ext p
-  simp only [mem, get_single, hc, hr, mem_ofPred_eq, mem_closedBall, EuclideanSpace.dist_eq, Fin.sum_univ_three,
+  simp only [mem, env_get_single, hc, hr, mem_ofPred_eq, mem_closedBall, EuclideanSpace.dist_eq, Fin.sum_univ_three,
     Real.sqrt_le_iff]
   constructor
   · rintro ⟨x, y, z, cx', cy', cz', rr', h1, h2, h3, h4, h5⟩
@@ -738,7 +739,7 @@ theorem translate_step (v : String) (e : Dom ℝ) (t : PFun ℝ) (ρ : Env ℝ) 
     μL (S2 v (.translate v e t) ρ) = μL (S2 v e ρ) := by
   have : S2 v (.translate v e t) ρ = (fun q => q + ![tx, ty]) '' S2 v e ρ := by
     ext p
-    simp only [S2, mem, get_single, ht, mem_ofPred_eq, mem_image]
+    simp only [S2, mem, env_get_single, ht, mem_ofPred_eq, mem_image]
     constructor
     · rintro (⟨q, x, tx', h1, h2, _⟩ | ⟨q1, q2, x, y, tx', ty', h1, h2, hx, hy, hm⟩ | ⟨q1, q2, q3, x, y, z, tx', ty', tz', h1, h2, _⟩)
       · simp at h1
@@ -793,16 +794,16 @@ theorem gridDims_le (n s1 s2 : ℝ) (hn : 0 ≤ n) (h1 : 0 < s1) (h2 : 0 < s2) :
     _ = n := Real.sqrt_sq hn
 
 /-- the barycentric grid is the complete `n₁ × n₂` product lattice -/
-theorem baryGrid_length (n1 n2 : ℕ) : (baryGrid n1 n2).length = n1 * n2 := by
-  simp [baryGrid, List.length_flatMap, Nat.mul_comm]
+theorem baryLattice_length (n1 n2 : ℕ) : (baryLattice n1 n2).length = n1 * n2 := by
+  simp [baryLattice, List.length_flatMap, Nat.mul_comm]
 
 /-- the triangle grid is a sub-lattice of the parallelogram grid -/
 theorem triGrid_length_le (n1 n2 : ℕ) : (triGrid n1 n2).length ≤ n1 * n2 := by
-  rw [← baryGrid_length]; exact List.length_filter_le _ _
+  rw [← baryLattice_length]; exact List.length_filter_le _ _
 
 /-- the interval grid has exactly `n` points -/
-theorem intervalGrid_length (l u : ℚ) (n : ℕ) : (intervalGrid l u n).length = n := by
-  simp [intervalGrid]
+theorem intervalLattice_length (l u : ℚ) (n : ℕ) : (intervalLattice l u n).length = n := by
+  simp [intervalLattice]
 
 /-- the lattice of the triangle for `n = 5` (`2n = 10` proposals, equal legs): `3 × 3`, of which 6 > 5 are kept -/
 theorem tri_density_grid_can_exceed :
@@ -849,7 +850,7 @@ example : Declared (K := ℝ) false (.union true (.cut true (.circle "x" (.const
   simp [Declared]
 
 example : densityCount 10 (1/3) = 4 ∧ densityCountProd 10 (1/3) = 3 := by decide +kernel
-example : (baryGrid 2 3).length = 6 ∧ (triGrid 2 2).length = 3 ∧ (triGridStrict 2 2).length = 1 := by decide +kernel
+example : (baryLattice 2 3).length = 6 ∧ (triGrid 2 2).length = 3 ∧ (triGridStrict 2 2).length = 1 := by decide +kernel
 /-- the unit square turned by the rational rotation (3/5, 4/5) about (1,2) still has area 1 -/
 example : μL (rotMap (3/5) (-4/5) (4/5) (3/5) 1 2 '' parSet ![0,0] ![1,0] ![0,1]) = ENNReal.ofReal 1 := by
   rw [rotation_invariant _ _ _ _ _ _ (by norm_num), par_volume]; norm_num
